@@ -4,6 +4,7 @@ import (
 	"bytes"
 	"runtime"
 	"strconv"
+	"strings"
 	"time"
 )
 
@@ -29,6 +30,10 @@ type c09G struct {
 	top     string // first function line of the stack
 	inStore bool   // has a frame of (or was created by) the store package
 }
+
+// Goroutine wait reasons that only another goroutine's action can end.  Everything else
+// (running, runnable, syscall, GC assist wait, sleep ...) counts as "still moving".
+var c09BlockedStates = []string{"chan receive", "chan send", "select", "semacquire", "sync.Mutex.Lock", "sync.RWMutex.RLock", "sync.RWMutex.Lock", "sync.Cond.Wait", "sync.WaitGroup.Wait"}
 
 var c09StackBuf = make([]byte, 1<<20)
 
@@ -84,17 +89,26 @@ func c09Snapshot() []c09G {
 		}
 		g := c09G{id: id, state: st, inStore: inStore}
 		if e := bytes.IndexByte(rest, '\n'); e >= 0 {
-			g.top = string(rest[:e])
-		} else {
-			g.top = string(rest)
+			rest = rest[:e]
 		}
-		switch st {
-		case "running", "runnable", "syscall", "preempted", "copystack", "waiting", "idle", "dead", "sleep", "IO wait", "":
-			g.blocked = false
-		default:
-			// chan receive, chan send, select, semacquire, sync.Mutex.Lock,
-			// sync.RWMutex.RLock, sync.RWMutex.Lock, sync.WaitGroup.Wait, sync.Cond.Wait ...
-			g.blocked = true
+		if e := bytes.LastIndexByte(rest, '('); e > 0 {
+			rest = rest[:e] // drop the argument words (addresses)
+		}
+		g.top = string(rest)
+		g.blocked = false
+		for _, p := range c09BlockedStates {
+			if strings.HasPrefix(st, p) {
+				g.blocked = true
+				break
+			}
+		}
+		if g.blocked && st == "semacquire" {
+			// "semacquire" is also the wait reason of runtime-internal semaphores (a
+			// goroutine whose allocation starts a GC cycle waits for the world semaphore
+			// our own snapshot holds): parked only if the wait is in sync / internal/poll.
+			if !strings.HasPrefix(g.top, "sync.") && !strings.HasPrefix(g.top, "internal/sync.") && !strings.HasPrefix(g.top, "internal/poll.") {
+				g.blocked = false
+			}
 		}
 		out = append(out, g)
 	}
